@@ -8,13 +8,13 @@ import importlib, sys
 sys.path.insert(0, HERE)
 
 TEXT = {
- "C01": "Theorems (Lean 4, kernel-checked): the resolved-layer core of trash-put (persist the info file under a free name, move, clean up) — on success the whole subtree sits under files/N next to N.trashinfo and is gone from its place, both names were free, nothing else changed; on failure nothing changed; a refused entry leaves nothing behind; the dot test and normpath agree on the last component. Tied to /repo by world-level differential runs of the real trash-put (final state, exit status, diagnostics) and the Lean predicate C01.Holds evaluated on every implementation run.",
+ "C01": "Theorems (Lean 4, kernel-checked): the resolved-layer core of trash-put (persist the info file under a free name, move, clean up) — on success the whole subtree sits under files/N next to N.trashinfo and is gone from its place, both names were free, nothing else changed; on failure nothing changed; a refused entry leaves nothing behind; the dot test and normpath agree on the last component. Tied to /repo by world-level differential runs of the real trash-put (final state, exit status, diagnostics), by interleaved runs of 2-3 real processes, and the Lean predicate C01.Holds evaluated on every implementation run.",
  "C02": "Theorems: restore core after put core is the identity on the entry (every node, bytes, link targets, modes, mtimes) and on every other path but the mtimes of directories whose entry lists changed; what put writes is read back exactly; the location is in scope of its directory and ancestors. Tied to /repo by put->noise->restore pipelines over byte-class names, kinds, layouts, sort modes and restore origins.",
  "C03": "Theorems over a byte-level model of the writer and of every reader entry point: un-escaping inverts escaping for every byte string, the escaped alphabet, the spec's own un-escape relation, layout and date round trip for every valid date. Tied to /repo by an exhaustive function-level differential check (single bytes, byte pairs, boundary dates, foreign contents); C03.Holds is evaluated on everything the implementation writes.",
  "C04": "Theorems: a successful put takes two names that were free and frames every other payload and info file; two successive puts own distinct names and both payloads stay whole; move-into-directory is unreachable when the destination is free; the first 100 suffixes are distinct. Tied to /repo by world runs over trash directories pre-populated with up to 120 colliding names of every kind, checking every previously trashed entry byte for byte.",
  "C05": "Theorems: every state a kill can leave behind while the put core runs (before each call, and the final one) keeps the entry complete at its origin or under files/N, and shows a payload only next to its complete .trashinfo; atomic_write's intermediate states are absent/empty/complete. Tied to /repo by recording the sandbox before every mutating call of real runs, comparing the sequence with the model's and evaluating C05.Holds on each state; real kills in the thorough tier.",
- "C06": "Theorems: without --overwrite any existing destination (lexists) makes the restore fail before any call, under every fault oracle; a multi-index selection stops there; the command exits 1; with --overwrite a non-directory payload replaces an existing regular file. Tied to /repo by restore worlds with destinations of every kind.",
- "C07": "Theorems: home path from the environment (empty XDG_DATA_HOME = unset), candidate order, gates, rejected candidates are left untouched, created directories are 0700, the lexical volume ascent returns the device root on plain canonical paths. Tied to /repo by world runs over the configuration lattice with an independent device-level table (C07.expected) as oracle.",
+ "C06": "Theorems: without --overwrite any existing destination (lexists) makes the restore fail before any call, under every fault oracle; a multi-index selection stops there; the command exits 1; with --overwrite a non-directory payload replaces an existing regular file, and the destination is left alone when the payload is missing (same index twice); a dangling link on the way to the destination's parent fails the restore without a change. Tied to /repo by restore worlds with destinations of every kind, duplicate locations and repeated indices.",
+ "C07": "Theorems: home path from the environment (empty XDG_DATA_HOME = unset), candidate order, gates, rejected candidates are left untouched, created directories are 0700, the lexical volume ascent returns the device root on plain canonical paths; a candidate behind a symbolic link that does not resolve is left without a call and the next one is tried. Tied to /repo by world runs over the configuration lattice (single- and multi-argument, every argument judged on its own) with an independent device-level table (C07.expected) as oracle.",
  "C08": "Theorems: trash-put's security check rejects $topdir/.Trash/$uid exactly when $topdir/.Trash is a symlink, not a directory or not sticky; the scanner of list/empty/rm and trash-restore never yield it then; trash-list reports it. Tied to /repo by runs of all five commands on worlds with every .Trash state and a populated .Trash/$uid.",
  "C09": "Theorems: trash-list is a function of the bag; the put core adds exactly one element; purge and restore cores remove exactly the selected one; C09Hist.history: induction over any history of put/purge/restore operations on a trash directory (invariant + local side conditions) - the bag is the fold of the abstract add/remove steps, and the listing shows exactly the live names (list_after_history). The string-level front of each command is validated: seeded histories, after every step listing = Effects.bagLines of the on-disk state, the step's effect judged by Effects.check, model transition = implementation transition.",
  "C10": "Theorems: the model of older_than agrees with an independent day-by-day calendar for every DAYS, current time and date; boundary kept, one second older purged, future kept, antitone in DAYS; only the first DeletionDate line counts. Tied to /repo by an exhaustive boundary-grid differential check and by trash-empty world runs whose effects are checked against ground-truth dates.",
@@ -23,9 +23,9 @@ TEXT = {
  "C13": "Theorems: parse_indexes accepts a reply iff it denotes (independent relational grammar) indices all within the list and returns exactly those; the scope test is a component-boundary prefix test; the offered list is a sorted permutation for every --sort mode. Tied to /repo by exhaustive function-level checks and by trash-restore world runs (listing and effects against ground truth).",
  "C14": "Theorems: with --dry-run, and in interactive mode with a reply not beginning with y/Y or end of input, trash-empty issues no file-system call for every world, DAYS and oracle. Tied to /repo by world runs, an exhaustive check of parse_reply, and dry-run vs real-run differential runs on copies.",
  "C15": "Theorems: while one entry is purged the info file is untouched as long as the payload root exists (every oracle); re-running the purge completes it; a same-volume restore keeps the entry complete in the trash or at its destination in every intermediate state. Tied to /repo by recorded pre-call states of restore/empty/rm runs, and kill-and-rerun runs.",
- "C16": "Theorems (every fault oracle): every argument is handled in order unless the run aborts; exit 0 iff no argument failed, 74 otherwise, 1 on abort; every failed argument is named on stderr; -f forgives only missing paths, -i skips only on a non-y reply. Independence of unrelated arguments is stated in full but validated differentially (each argument alone on a copy).",
+ "C16": "Theorems (every fault oracle): every argument is handled in order unless the run aborts; exit 0 iff no argument failed, 74 otherwise, 1 on abort; every failed argument is named on stderr; -f forgives only missing paths, -i skips only on a non-y reply. Independence (Props/C16Indep): what follows an argument never changes what happened before it; arguments that leave the file system alone are transparent at any position (every oracle); two really-trashed arguments commute at the resolved layer and, for canonical spellings, in the home trash (_partial); the first literal statement is refuted by 10 kernel-checked counterexamples. The general case is validated differentially (each argument alone on a copy: outcome, trash directory, recorded Path).",
  "C17": "Theorems (arbitrary fault oracle): a hopeless errno ends the name search at once; the search is bounded; whatever the answers to create/write/close, success means wholly trashed and failure means nothing left behind (rename and clean-up unlink not faulted). Tied to /repo by exhaustive single-fault sweeps (every call x 14 errnos), persistent faults, stat-class faults, pairs in thorough.",
- "C18": "Theorems: normpath never leaves a trailing slash; the last component survives any number of trailing slashes; kernel resolution does not follow a final symlink; the core moves the link node and frames its target. Tied to /repo by world runs biased to symlink arguments with the C18 oracle (same link in the trash, target untouched, recorded location).",
+ "C18": "Theorems: normpath never leaves a trailing slash; the last component survives any number of trailing slashes; kernel resolution does not follow a final symlink; the core moves the link node and frames its target. Tied to /repo by world runs biased to symlink arguments (links to files, directories, nothing, other links, the top of another volume) with the C18 oracle (same link in the trash, target untouched, recorded location) and: a link is trashed whenever C07.expected names a usable trash directory.",
  "C19": "Theorems: the readers are item-wise maps over the sorted name list; item-wise readers are insensitive to interleaved items that yield nothing; the sort is total; malformed items issue no call in trash-rm / trash-empty DAYS. Tied to /repo by worlds with 14 kinds of malformed neighbours, each also run with the neighbours deleted.",
  "C20": "Theorems: list, restore, rm and empty factor through the same two parsers and are handed the same base directory for every kind of trash directory. Tied to /repo by an exhaustive four-way differential over content templates x trash-dir kinds.",
 }
